@@ -146,7 +146,7 @@ POISON = [
     "\\", "\\u", "\\1", "\\g<9>", "\\g<prefix>", "a\\", "dom\\user", "\\b\\n\\x", "(", ")", "[", "]", "(?P<x>", "*", "+?", "{1,", "|", "^$", ".*", "\\\\",
     "$1$", "$1$$", "$1$$hash", "$1$salt", "$1$123456789$abc", "$1$" + "s" * 40 + "$h", "$1$salt$a$b", "$1$salt$ABCDEF$", "$1$salt$", "$1$$$", "$1$é$x",
     "$9$", "$9$a", "$9$abc", "$9$CSx_tpBREyKvL", "$9$CSxépBREyKvL", "$9$CSx١pBREyKvL", "$9$ab,cd", "$9$CSxptpBREyKv", "$9$Qne", "$9$-", "$9$$9$", "$9$CSxptpBREyKvL$", '"$9$',
-    "$6$", "$6$rounds=5000$x$y", "$6$$", "$5$abc$def", "$2a$10$abc",
+    "$6$", "$6$rounds=5000$x$y", "$6$$", "$5$abc$def", "$2a$10$abc", "$6$rounds=656000", "$6$rounds=", "$6$rounds=5000$", "$6$rounds=x$salt$hash", "$6$abc", "$6$abc$", "$6$$$", "$6$" + "s" * 40 + "$h",
     "fe80:%x", "fe80:::%1", "fe80::%", "fe80:%", "::01.2.3.4", "1.2.3.4.5", "256.256.256.256", "::", ":::", "1::2::3", "::ffff:1.2.3.256", "1:2:3:4:5:6:7:8:9", "00000001.2.3.4", "1.2.3.4/999", "::/", "fe80::1%",
     "\x00", "\x0b", "\x0c", "\x1c\x1d\x85", " ", " ", "﻿", "\U0001f600", "١٢", "１２",
     "'", '"', "\\'", '\\"', "';", '""', "[[", "}}", ";;", ",",
@@ -171,8 +171,8 @@ def _poison(draw):
             return v[:i] + draw(st.sampled_from(["_", "é", "١", ",", "$", "\\", " ", "Ω", "²"])) + v[i + 1 :]
         return draw(st.text(alphabet=_NOEOL, min_size=1, max_size=8))
     if k == 10:
-        v = draw(st.one_of(S.j9_value(), S.md5_value()))
-        return draw(st.sampled_from([v[: draw(st.integers(3, len(v)))], v + "$", v + v, v.replace("$", "$$", 1), v[:3] + v[4:]]))
+        v = draw(st.one_of(S.j9_value(), S.md5_value(), S.sha512_value(), S.sha512_value().map(lambda h: h.replace("$6$", "$6$rounds=656000$"))))
+        return draw(st.sampled_from([v[: draw(st.integers(3, len(v)))], v[: draw(st.integers(3, min(len(v), 24)))], v + "$", v + v, v.replace("$", "$$", 1), v[:3] + v[4:]]))
     return draw(st.sampled_from(["[", "{", '"'])) * draw(st.integers(1, 3)) + draw(st.sampled_from(POISON)) + draw(st.sampled_from(["]", "}", '"', ";"])) * draw(st.integers(1, 3))
 
 
